@@ -134,6 +134,25 @@ class Poly1(PolyPotentialBase):
     def field_scale(self, Tn):
         return float(self.phi_broken(Tn))
 
+    # soft end of the symmetric phase: at T0 the minimum phi=0 turns into a maximum and the
+    # continuous family of minima passes to phi_-(T) < 0 (transcritical).  A tracer that
+    # continues through T0 on that family is still on "the same continuous branch".
+    def phi_minus(self, T):
+        T = np.asarray(T, dtype=float)
+        disc = 9 * self.E ** 2 * T ** 2 - 8 * self.lam * self.D * (T ** 2 - self.T0 ** 2)
+        return (3 * self.E * T - np.sqrt(np.maximum(disc, 0.0))) / (2 * self.lam)
+
+    def exists_soft(self, phase):
+        return (0.0, math.inf) if phase == "high" else self.exists(phase)
+
+    def V_phase_soft(self, phase, T):
+        T = np.asarray(T, dtype=float)
+        if phase != "high":
+            return self.V_phase(phase, T)
+        below = T < self.T0
+        pm = np.where(below, self.phi_minus(T), 0.0)
+        return self.V_phys(np.asarray(pm)[..., None], T)
+
 
 class Poly2(PolyPotentialBase):
     fieldCount = 2
